@@ -6,7 +6,7 @@ post-passes (Model/Jacobi.lean), theorems in Props/C12.lean, tied to the real co
 lean/Driver/SHRT.lean = the models at Float, incl. the whole jacobiSVD / jacobiEigenSolver as a driver-level loop).
 T-route: the SHRT wrappers regenerated from ImathMatrixAlgo.h (module Gen/C12.lean; the inner function is an opaque call of the
 hand model), theorems in Props/C12.lean and — full-strength recomposition of the 2-D sansScaling/removeScaling —
-Props/C12Recompose.lean.  Residue (MEASURED, partial): convergence / accuracy of jacobiSVD, jacobiEigenSolver,
+Props/C12Recompose.lean (held back by a genuine defect until /repo commit ec5bcdd).  Residue (MEASURED, partial): convergence / accuracy of jacobiSVD, jacobiEigenSolver,
 min/maxEigenVector, procrustes recovery and local optimality (harness/corr/c12_residue.cpp)."""
 import os, re, collections
 import lib, troute
@@ -35,9 +35,10 @@ REQUIRED = [
     "jacobiSVD_from_identity3", "jacobiSVD_from_identity4", "twoSidedJacobiRotation_computed_parameters",
     "twoSidedJacobiRotation_tol0_invariant", "jacobiSVD_sweeps_tol0_invariant3", "jacobiSVD_sweeps_tol0_invariant4", "jacobiRotation_invariant", "jacobiRotation_parameters", "jacobiSVD_post3", "jacobiSVD_post4_partial",
     "jacobiSVD_forcePositiveDeterminant", "maxEigenVector_index3", "minEigenVector_index3", "trigSpec_real"]
-REQUIRED_FULL = ["M33_sansScaling_recompose", "M33_removeScaling_recompose"]
+REQUIRED_FULL = ["M33_sansScaling_recompose", "M33_removeScaling_recompose", "M33_sansScaling_witness", "M33_removeScaling_witness"]
+FULL_KEYS = ["M33_sansScaling_recompose", "M33_removeScaling_recompose"]
 
-# witness of the 2-D sansScaling/removeScaling defect: rotation by the 3-4-5 angle (cos 4/5, sin 3/5), translation (3, 4)
+# witness of the (repaired, /repo ec5bcdd) 2-D sansScaling/removeScaling defect: rotation by the 3-4-5 angle (cos 4/5, sin 3/5), translation (3, 4)
 W345 = ["0.8", "0.6", "0", "-0.6", "0.8", "0", "3", "4", "1"]
 
 
@@ -162,8 +163,8 @@ def residue(chk, binary, n):
 
 def defect_search(chk, sym_binary, name):
     """The full-strength recomposition of the 2-D sansScaling / removeScaling does not elaborate: decide whether the CODE
-    violates the statement.  (a) Props/C12Defect.lean proves, against the regenerated Gen, what the function computes and the
-    negation of the statement on the 3-4-5 witness; (b) the witness is replayed on the real code at double."""
+    violates the statement by replaying the 3-4-5 witness (the counterexample of the defect repaired in /repo commit ec5bcdd)
+    on the real code at double: sansScaling must return the matrix unchanged, translation row (3, 4)."""
     fn = "M33.sansScaling" if "sans" in name else "M33.removeScaling"
     cmd = [sym_binary, "real", fn] + W345
     for d in idx_deps():
@@ -172,27 +173,16 @@ def defect_search(chk, sym_binary, name):
     line = out.strip().split("\n")[-1] if out.strip() else ""
     m = re.search(r"vals=(.*?)ints=", line)
     vals = [float(x) for x in m.group(1).split()] if m else []
-    tr = vals[6:8] if len(vals) >= 9 else None
-    violated = tr is not None and (abs(tr[0] - 3.0) > 1e-9 or abs(tr[1] - 4.0) > 1e-9)
-    rcl, outl = lib.lean_run_file("import ImathVerif.Props.C12Defect\n#print axioms ImathVerif.C12.M33_sansScaling_recompose_false\n"
-                                  "#print axioms ImathVerif.C12.M33_removeScaling_witness\n", timeout=900, name="c12defect")
-    if rcl != 0:
-        # the defect module is stale w.r.t. Gen: elaborate the source directly
-        with lib.Lock("lean"):
-            rcl, outl = lib.sh(["lake", "env", "lean", os.path.join(lib.LEAN, "ImathVerif", "Props", "C12Defect.lean")], cwd=lib.LEAN, timeout=900)
-    negation_proved = rcl == 0 and "sorryAx" not in outl
-    if not violated:
+    want = [0.8, 0.6, 0.0, -0.6, 0.8, 0.0, 3.0, 4.0, 1.0]
+    if len(vals) != 9 or all(abs(a - b) <= 1e-9 for a, b in zip(vals, want)):
         return None
     return {"key": "theorem:" + name,
             "witness": "M = rotation by the 3-4-5 angle (cos 4/5, sin 3/5) * translation (3,4): rows (0.8,0.6,0) (-0.6,0.8,0) (3,4,1); "
-                       "scale (1,1), shear 0, so sansScaling(M) must be M itself",
-            "expected_translation_row": [3.0, 4.0], "real_code_at_double_translation_row": tr, "real_code_at_double": line,
-            "negation_proved_in_Lean (Props/C12Defect.lean: M33_sansScaling_recompose_false, exact rationals, translation (0,5))": negation_proved,
-            "cause": "sansScaling/removeScaling(Matrix33) recompose with M.translate(tran); M.rotate(rot); M.shear(shr); Matrix33::rotate "
-                     "POST-multiplies (*this *= R) while translate and shear pre-multiply, giving shear*translation*rotation: the "
-                     "translation comes back rotated.  The Matrix44 versions are right because Matrix44::rotate pre-multiplies.",
-            "minimal_fix": "in both functions replace `M.translate (tran); M.rotate (rot); M.shear (shr);` by "
-                           "`M.rotate (rot); M.shear (shr); M[2][0] = tran.x; M[2][1] = tran.y;` (for removeScaling on `mat` after makeIdentity)"}
+                       "scale (1,1), shear 0, so sansScaling(M) must be M itself (theorems M33_sansScaling_witness / M33_removeScaling_witness)",
+            "expected_row_major": want, "real_code_at_double_row_major": vals, "real_code_at_double": line,
+            "history": "this is the defect repaired in /repo commit ec5bcdd: recomposing with M.translate(tran); M.rotate(rot); "
+                       "M.shear(shr) gives shear*translation*rotation because Matrix33::rotate POST-multiplies (translation row (0,5) "
+                       "on this witness); the repaired code does M.rotate(rot); M.shear(shr); M[2][0] = tran.x; M[2][1] = tran.y"}
 
 
 def _mm(a, b):
@@ -309,7 +299,7 @@ def run(chk):
         state["corr_first"] = correspondence(chk, bins["c12_corr"], 2000 if chk.thorough else 300)
     chk.check_theorems(MODULE, required=REQUIRED, search=lambda n: generic_search(chk, state, n))
     chk.check_theorems(MODULE_FULL, required=REQUIRED_FULL,
-                       search=lambda n: defect_search(chk, bins.get("sym_c12"), n) if n in REQUIRED_FULL and bins.get("sym_c12") else None)
+                       search=lambda n: defect_search(chk, bins.get("sym_c12"), n) if bins.get("sym_c12") else None)
     # removeScaling (Matrix33) returns sansScaling's matrix (theorem M33_removeScaling): its recomposition theorem is derived from
     # M33_sansScaling_recompose, so it inherits the failure; report it under its own key with its own replay on the real code
     if any(f["key"] == "theorem:M33_sansScaling_recompose" for f in chk.failures) and bins.get("sym_c12") and \
